@@ -202,8 +202,9 @@ fn new_sieve<'a>(
     let recycled = rec.is_some();
     match guard(|| Sieve::new(offset, nblocks, fb, [r1, r2], rec)) {
         Ok(s) => {
+            let (bw, bcap) = sieve::vhook::bucket_params();
             out.ev(json!({"op": "new", "case": case, "r1": r1, "r2": r2, "nblocks": nblocks, "offset": di64(offset),
-                          "recycled": recycled, "roots": kind, "novf": novf(&s)}));
+                          "recycled": recycled, "roots": kind, "novf": novf(&s), "bw": bw, "bcap": bcap}));
             Some(s)
         }
         Err(mut e) => {
@@ -302,7 +303,10 @@ pub fn run(args: &Args) -> i32 {
                             r2[i] = ((r2[i] as u64 + p - l % p) % p) as u32;
                         }
                         match guard(|| s.rehash([&r1[..], &r2[..]])) {
-                            Ok(_) => out.ev(json!({"op": "rehash", "case": case, "r1": r1, "r2": r2, "novf": novf(&s)})),
+                            Ok(_) => {
+                                let (bw, bcap) = sieve::vhook::bucket_params();
+                                out.ev(json!({"op": "rehash", "case": case, "r1": r1, "r2": r2, "novf": novf(&s), "bw": bw, "bcap": bcap}))
+                            }
                             Err(mut e) => {
                                 e["op"] = json!("rehash");
                                 e["case"] = json!(case);
